@@ -32,7 +32,7 @@ ANCHORS = [
     "acnportal.acnsim.network.current:Current.__sub__",
     "acnportal.acnsim.network.current:Current.__mul__",
 ]
-REQUIRED = ["op:add", "op:remove", "op:update", "op:update_rename", "op:register_refused", "subset_queries",
+REQUIRED = ["op:add", "op:remove", "op:update", "op:update_rename", "op:register_refused", "op:refused_add_unknown_station", "op:refused_remove_unknown_name", "op:refused_update_unknown_name", "subset_queries",
             "tree:+", "tree:-", "tree:*left", "tree:*right", "tree:scalar_multiple_as_operand", "leaf:dict",
             "leaf:list", "leaf:str", "leaf:series"]
 BUDGET_S = {"quick": 200, "thorough": 2400}
@@ -150,9 +150,31 @@ def run_case(case, obs):
 
     nops = 0
     for step in range(case["ops"]):
-        op = rng.choice(["add", "add", "remove", "update", "register", "dup"])
+        op = rng.choice(["add", "add", "remove", "update", "register", "dup", "refused"])
         if op in ("remove", "update", "dup") and not model:
             op = "add"
+        if op == "refused":
+            # an operation the network must refuse (unknown station / unknown name): it raises and changes nothing,
+            # which the model comparison below and every later operation then confirm
+            from acnportal.acnsim.network import Current as _Cur
+            kind = rng.choice(["add_unknown_station", "remove_unknown_name", "update_unknown_name"])
+            log.append(["refused:" + kind])
+            try:
+                if kind == "add_unknown_station":
+                    known = rng.sample(ids, rng.randint(0, min(2, len(ids))))
+                    net.add_constraint(_Cur({**{k_: 1 for k_ in known}, "ghost-station": 1}), round(rng.uniform(5, 999), 3), f"bad{cnt}")
+                elif kind == "remove_unknown_name":
+                    net.remove_constraint(f"nope{cnt}")
+                else:
+                    net.update_constraint(f"nope{cnt}", _Cur({ids[0]: 1}), 12.5)
+                obs.violate("invalid_operation_accepted", f"{kind} did not raise", ops=log[-6:])
+                return
+            except KeyError:
+                obs.ev("op:refused_" + kind)
+            cnt += 1
+            if not check(log[-1][0]):
+                return
+            continue
         if op == "dup" and rng.random() > 0.1:
             op = "add"
         nops += 1
